@@ -1701,6 +1701,13 @@ fn main() {
 	let thorough = tier_thorough();
 	let args: Vec<String> = std::env::args().collect();
 	let monitor = args.get(1).map(|s| s == "monitor").unwrap_or(false);
+	if monitor {
+		// `monitor_transactions` spawns its own thread: it reads the process-wide parameters, as
+		// in a running node (the worker threads of this harness set the same values thread-locally)
+		global::init_global_chain_type(global::ChainTypes::AutomatedTesting);
+		global::init_global_nrd_enabled(true);
+		global::init_global_accept_fee_base(FEE_BASE);
+	}
 	let args: Vec<String> = if monitor { args[1..].to_vec() } else { args };
 	let nh: usize = args.get(1).and_then(|s| s.parse().ok()).unwrap_or(if monitor { if thorough { 12 } else { 3 } } else if thorough { 10 } else { 3 });
 	let rounds: usize = args.get(2).and_then(|s| s.parse().ok()).unwrap_or(if monitor { if thorough { 20 } else { 6 } } else if thorough { 30 } else { 10 });
